@@ -4,7 +4,7 @@ CONSTANTS
   MaxPath = 3
   EmitMod = 1
   EmitRem = 0
-  Fixed = {"D1", "D2", "D3", "D4", "D5", "D6"}
+  Fixed = {"D1", "D2", "D3", "D4", "D5", "D6", "D7"}
 INVARIANT SafeNoExec
 INVARIANT InferPlainExact
 INVARIANT NamesSupersetDir
